@@ -25,6 +25,11 @@ class VC:
     target: str = ""
     consts: list = field(default_factory=list)
 
+    @property
+    def relaxed(self) -> bool:
+        """does the VC mention a rounding result of the relaxed float model?"""
+        return "fl!" in self.smt2
+
 
 @dataclass
 class VCResult:
@@ -38,6 +43,7 @@ class VCResult:
     expect: str = "unsat"
     path: tuple = ()
     target: str = ""
+    relaxed: bool = False
 
     @property
     def ok(self) -> bool:
@@ -135,7 +141,7 @@ def solve_one(vc: VC, timeout_s: float, use_cvc5: bool = True) -> VCResult:
         if st != "unknown":
             break
         reasons.append(f"{be}: {reason}")
-    return VCResult(vc.name, st, backend, total, model, " | ".join(reasons), vc.kind, vc.expect, vc.path, vc.target)
+    return VCResult(vc.name, st, backend, total, model, " | ".join(reasons), vc.kind, vc.expect, vc.path, vc.target, vc.relaxed)
 
 
 def _worker(args):
